@@ -2,4 +2,5 @@
 (* MC_Line plus HavocScratch at line boundaries: the answer to a line does not depend on leftovers of earlier lines (C20). *)
 EXTENDS MC_Line
 MCBytesH == {65, 84, 66, 61, 63, 13, 10}
+MCTablesH == {T1, T2, T3, T4, T5}
 =============================================================================
